@@ -18,7 +18,7 @@ def run(rep, tier, seed):
     _, header, states = mc.run_mc_modeldef(rep, maxhist, dump=True, derivs=True)
     mine = [s for s in states if c01_hist(s, header)]
     if quick:
-        mine = mine[::3]
+        mine = mine[::5]
     res = mc.replay_states(header, mine, om.C03_KEYS, seed)
     rep.traces(len(res))
     for r in res:
@@ -26,7 +26,7 @@ def run(rep, tier, seed):
     judge(rep, res, set(om.C03_KEYS), "replayed TLC state disagrees")
     rep.sample({"mode": "G", "history": mine[-1]["hist"], "expected_jacobian": mine[-1]["jac"]})
     n = 120 if quick else 2500
-    opts = {"keys": om.C03_KEYS, "routes": ["E", "T"], "cython_every": 60 if quick else 80,
+    opts = {"keys": om.C03_KEYS, "routes": ["E", "E1", "T", "LT", "LBo", "LBd", "LD"], "cython_every": 60 if quick else 80,
             "gen": {"nonsymmetric": True}}
     results = mc.run_oracle(n, seed + 3, opts)
     for r in results:
